@@ -230,7 +230,7 @@ class Models:
         if isinstance(expr, ast.Dict) and not expr.keys:
             g = GlobalMapV(name)
             ann = module.global_ann.get(name, "")
-            g.unit_values = self._mapping_value_is_unit(ann)
+            g.unit_values = self._mapping_value_is_unit(ann) or self._is_symbol_directory(name)
             g.record_types = self.record_types(module, ann)
             return g
         if isinstance(expr, ast.Call) and isinstance(expr.func, ast.Name) and expr.func.id in ("set", "dict") \
@@ -240,7 +240,7 @@ class Models:
             g.container = expr.func.id
             if expr.func.id == "dict":
                 ann = module.global_ann.get(name, "")
-                g.unit_values = self._mapping_value_is_unit(ann)
+                g.unit_values = self._mapping_value_is_unit(ann) or self._is_symbol_directory(name)
                 g.record_types = self.record_types(module, ann)
             return g
         if isinstance(expr, ast.Call):
@@ -954,6 +954,14 @@ class Models:
         if isinstance(obj, TupleV) and attr in ("count", "index"):
             return OpaqueV("tuple." + attr)
         I.unsupported(node, f"attribute {attr} of {obj!r}")
+
+    def _is_symbol_directory(self, name: str) -> bool:
+        """The directory unit creation enters new units into (whatever its annotation says about its values)."""
+        from .anchors import symbol_directories
+        try:
+            return name in symbol_directories(self.prog)
+        except AnalysisError:
+            return False
 
     @staticmethod
     def _mapping_value_is_unit(ann: str) -> bool:
